@@ -528,6 +528,143 @@ theorem reachable_inv (d : String → Option Dest) (ops : List Op) : Inv (run (i
 
 theorem numLinks_eq : numLinks = 3 := by decide
 
+/-! ## spoofed identities: the identity a peer CLAIMS on the stream never reaches the DHT -/
+
+/-- whatever identity the peer claims on the stream (none, its own, another client's, its own Id with another
+client's Address, …), the call has the same outcome and the same effect on the DHT. -/
+theorem claim_ignored (st : St) (r : Req) (cl : Option Ident) : stepReq st (r.withClaim cl) = stepReq st r := by
+  cases r <;> rfl
+
+theorem runReq_eq (st : St) (rs : List Req) : runReq st rs = run st (rs.map Req.op) := by
+  induction rs generalizing st with
+  | nil => rfl
+  | cons r rs ih => simp only [runReq, List.foldl_cons, List.map_cons, run] at ih ⊢; exact ih _
+
+/-- a route found after a publish was there before, or is a route of the published hostname naming the caller. -/
+theorem publish_route_origin (f : Faults) (c : Client) (h : String) (s : List (Option String)) (st : St)
+    (h' : String) (k' : Nat) (r : Route) (hr : (publish f c h s st).1.route h' k' = some r) :
+    st.route h' k' = some r ∨ (h' = h ∧ r.client = c ∧ r.hostname = h) := by
+  unfold publish at hr
+  simp only at hr
+  by_cases h1 : (uniq s).length > numLinks
+  · simp only [h1, if_true] at hr; exact Or.inl hr
+  by_cases h2 : (uniq s).length < 1
+  · simp only [h1, h2, if_true, if_false] at hr; exact Or.inl hr
+  by_cases h3 : st.leased c.token = true
+  · simp only [h1, h2, h3, if_true, if_false] at hr; exact Or.inl hr
+  by_cases h4 : st.owns c.token h = true
+  · cases h5 : destAll st.dest (uniq s) with
+    | none => simp only [h1, h2, h3, h4, h5, if_false, Bool.not_true, Bool.false_eq_true] at hr; exact Or.inl hr
+    | some dsts =>
+      simp only [h1, h2, h3, h4, h5, if_false, Bool.not_true, Bool.false_eq_true] at hr
+      have hr' : (putAll f c h dsts 1 st).1.route h' k' = some r := by
+        by_cases h6 : (putAll f c h dsts 1 st).2.isEmpty = true <;> simpa [h6] using hr
+      rcases putAll_new f c h dsts 1 st h' k' r hr' with h0 | ⟨a, _, _, d, e⟩
+      · exact Or.inl h0
+      · exact Or.inr ⟨a, d, e⟩
+  · simp only [h1, h2, h3, h4, if_false, Bool.not_false, if_true] at hr; exact Or.inl hr
+
+/-- no call but a publish creates a route, and a publish creates only routes of its hostname naming its caller. -/
+theorem step_route_origin (st : St) (op : Op) (h : String) (k : Nat) (r : Route)
+    (hr : (step st op).1.route h k = some r) :
+    st.route h k = some r ∨ ∃ f s, op = .publish f r.client h s := by
+  cases op with
+  | generate c h0 =>
+    left; simp only [step, generate] at hr
+    by_cases ho : st.owns c.token h0 = true <;> simpa [ho] using hr
+  | bindCustom c h0 => left; simpa [step, bindCustom] using hr
+  | hold t b => left; simpa [step] using hr
+  | publish f c h0 s =>
+    rcases publish_route_origin f c h0 s st h k r hr with h1 | ⟨a, b, _⟩
+    · exact Or.inl h1
+    · right; subst a; subst b; exact ⟨f, s, rfl⟩
+  | unpublish f c h0 =>
+    left
+    simp only [step, unpublish] at hr
+    by_cases hl : st.leased c.token = true
+    · simpa [hl] using hr
+    · simp only [hl, Bool.false_eq_true, if_false] at hr
+      obtain ⟨_, _, _, _, _, _, e⟩ := unadvertise_spec f c h0 st
+      have hr' : (unadvertise f c h0 st).1.route h k = some r := by
+        rcases hq : unadvertise f c h0 st with ⟨s', o⟩
+        rw [hq] at hr; cases o <;> exact hr
+      rcases e h k with h1 | ⟨_, h2⟩
+      · rw [h1] at hr'; exact hr'
+      · rw [h2] at hr'; cases hr'
+  | release f c h0 =>
+    left
+    simp only [step, release] at hr
+    by_cases hl : st.leased c.token = true
+    · simpa [hl] using hr
+    · simp only [hl, Bool.false_eq_true, if_false] at hr
+      obtain ⟨_, _, _, _, _, _, e⟩ := unadvertise_spec f c h0 st
+      have hr' : (unadvertise f c h0 st).1.route h k = some r := by
+        rcases hq : unadvertise f c h0 st with ⟨s', o⟩
+        rw [hq] at hr
+        cases o with
+        | some err => exact hr
+        | none => by_cases hc : f.failCustomDel h0 = true <;> simpa [hc] using hr
+      rcases e h k with h1 | ⟨_, h2⟩
+      · rw [h1] at hr'; exact hr'
+      · rw [h2] at hr'; cases hr'
+
+/-- C26, spoofed identities in requests: a successful PublishTunnel of a caller whose certificate names
+`who.verified` — WHATEVER identity `who.claimed` it claims on the stream — was made by the owner of the hostname and
+stores, for every requested server i whose Put succeeded, under slot i+1 the route
+{ClientDestination = the certificate identity (Id, Address = token, Rendezvous), that server's record, hostname};
+and every route present afterwards that was not there before names the certificate identity. -/
+theorem publish_names_verified (f : Faults) (who : Caller) (h : String) (s : List (Option String)) (st : St)
+    (p : List String) (hok : (stepReq st (.publish f who h s)).2 = .ok p) :
+    st.owns who.verified.token h = true
+    ∧ (∃ dsts, destAll st.dest (uniq s) = some dsts ∧ dsts.length = (uniq s).length ∧
+        ∀ i (hi : i < dsts.length), f.failRoute h (i + 1) = false →
+          ∃ r, (stepReq st (.publish f who h s)).1.route h (i + 1) = some r
+            ∧ r.client = who.verified ∧ r.client.node = ⟨who.verified.id, who.verified.token, true⟩
+            ∧ r.chord = dsts[i].chord ∧ r.tunnel = dsts[i].tunnel ∧ r.hostname = h)
+    ∧ (∀ h' k' r, (stepReq st (.publish f who h s)).1.route h' k' = some r → st.route h' k' ≠ some r →
+          h' = h ∧ r.client = who.verified ∧ r.client.node = ⟨who.verified.id, who.verified.token, true⟩) := by
+  have hok' : (publish f who.verified h s st).2 = .ok p := hok
+  obtain ⟨dsts, h5, hlen, _, hat, _, _, _⟩ := publish_routes f who.verified h s st p hok'
+  refine ⟨(publish_ok_requires f who.verified h s st p hok').1, ⟨dsts, h5, hlen, fun i hi hf => ?_⟩, fun h' k' r hr hne => ?_⟩
+  · exact ⟨_, hat i hi hf, rfl, rfl, rfl, rfl, rfl⟩
+  · have hr' : (publish f who.verified h s st).1.route h' k' = some r := hr
+    rcases publish_route_origin f who.verified h s st h' k' r hr' with h0 | ⟨a, b, _⟩
+    · exact absurd h0 hne
+    · exact ⟨a, b, by rw [b]; rfl⟩
+
+/-- C26 over ALL histories of requests carrying arbitrary claimed identities: the invariant of `reachable_inv`
+holds, and every stored route names the CERTIFICATE identity of a publish request of the history for that very
+hostname — an identity that was only claimed on a stream never ends up in a route. -/
+theorem routes_name_verified (d : String → Option Dest) (rs : List Req) :
+    Inv (runReq (init d) rs)
+    ∧ ∀ h k r, (runReq (init d) rs).route h k = some r →
+        ∃ f who s, Req.publish f who h s ∈ rs ∧ who.verified = r.client := by
+  refine ⟨by rw [runReq_eq]; exact reachable_inv d _, ?_⟩
+  suffices ∀ (pre : List Req) (st : St),
+      (∀ h k r, st.route h k = some r → ∃ f who s, Req.publish f who h s ∈ pre ∧ who.verified = r.client) →
+      ∀ h k r, (runReq st rs).route h k = some r →
+        ∃ f who s, Req.publish f who h s ∈ pre ++ rs ∧ who.verified = r.client by
+    simpa using this [] (init d) (by intro h k r hr; simp [init] at hr)
+  induction rs with
+  | nil => intro pre st hp h k r hr; simpa [runReq] using hp h k r hr
+  | cons q qs ih =>
+    intro pre st hp h k r hr
+    have key := ih (pre ++ [q]) (stepReq st q).1 (fun h' k' r' hr' => by
+      rcases step_route_origin st q.op h' k' r' hr' with h0 | ⟨f, s, hq⟩
+      · obtain ⟨f, who, s, hm, hv⟩ := hp h' k' r' h0
+        exact ⟨f, who, s, by simp [hm], hv⟩
+      · cases q with
+        | publish f0 who h0 s0 =>
+          simp only [Req.op, Op.publish.injEq] at hq
+          obtain ⟨_, hc, hh, _⟩ := hq
+          exact ⟨f0, who, s0, by simp [hh], hc⟩
+        | generate _ _ => simp [Req.op] at hq
+        | bindCustom _ _ => simp [Req.op] at hq
+        | unpublish _ _ _ => simp [Req.op] at hq
+        | release _ _ _ => simp [Req.op] at hq
+        | hold _ _ => simp [Req.op] at hq) h k r (by simpa [runReq] using hr)
+    simpa using key
+
 /-! ## non-vacuity -/
 
 private def d0 : String → Option Dest
@@ -543,5 +680,13 @@ example : (publish {} alice "h" [some "s1", some "s2", some "s3", some "s4"] stA
 example : (release {} alice "h" (publish {} alice "h" [some "s1"] stA).1).2 = .ok [] := by decide
 example : (release {} bob "h" stA).2 = .permissionDenied := by decide
 example : (publish { failRoute := fun _ k => k == 1 } alice "h" [some "s1", some "s2"] stA).2 = .ok ["s2"] := by decide
+
+-- spoofed stream identity: alice's certificate, alice's Id, bob's Address claimed on the stream
+private def spoof : Caller := ⟨alice, some ⟨1, "bob", true⟩⟩
+example : (stepReq stA (.publish {} spoof "h" [some "s1", some "s2"])).2 = .ok ["s1", "s2"] := by decide
+example : ((stepReq stA (.publish {} spoof "h" [some "s1"])).1.route "h" 1).map (·.client.node) = some ⟨1, "alice", true⟩ := by decide
+example : (stepReq stA (.publish {} ⟨bob, some ⟨1, "alice", true⟩⟩ "h" [some "s1"])).2 = .permissionDenied := by decide
+example : (Req.publish {} spoof "h" [some "s1"]).withClaim none = .publish {} ⟨alice, none⟩ "h" [some "s1"] := rfl
+example : (runReq (init d0) [.generate spoof "h", .publish {} spoof "h" [some "s2"]]).route "h" 1 = some ⟨alice, "c2", "s2", "h"⟩ := by decide
 
 end Specter.C26
